@@ -460,6 +460,11 @@ func c18R3(c *kit.Ctx, m *mbModel) {
 		res := ip.Run()
 		c.AddValuations(1)
 		var o outcome
+		if len(res.Crashes) > 0 {
+			cr := res.Crashes[0]
+			o.bad = fmt.Sprintf("panics at `%s` (%s): %s", trunc(m.Req.Str(cr.Node), 50), m.Req.At(cr.Node), cr.Msg)
+			return o
+		}
 		if len(res.Unsupported) > 0 || res.Overflow {
 			o.und = fmt.Sprintf("evaluation failed: %v", res.Unsupported)
 			return o
@@ -955,7 +960,7 @@ func (m *mbModel) checkSingleWrite(c *kit.Ctx, o *kit.Ob, arm *mbArm, code int64
 // R5 loops
 
 func c18R5(c *kit.Ctx, m *mbModel) {
-	r := c.Rule("R5", "loops of the request processor are counted loops over a 16-bit quantity", 4)
+	r := c.Rule("R5", "loops of the request processor are counted loops over a 16-bit quantity", 8)
 	f := m.Req
 	info := f.Info()
 	bnd := kit.AnalyseBounds(c.P, f)
@@ -1074,16 +1079,31 @@ func c18R5(c *kit.Ctx, m *mbModel) {
 				o.Undecided("the bound `%s` cannot be evaluated", f.Str(b))
 				return true
 			}
-			hi := bnd.EnvAt(fsb, nil).IvTerm(bt).Hi
+			env := bnd.EnvAt(fsb, nil)
+			trips := env.LinOf(bt)
+			// number of iterations = bound - start value of the counter
+			if init, ok := fs.Init.(*ast.AssignStmt); ok && len(init.Lhs) == len(init.Rhs) {
+				for i, l := range init.Lhs {
+					if kit.ObjOf(info, l) == iv {
+						if fsi, _ := bnd.FactsBefore(fs.Init); fsi != nil {
+							if t0 := bnd.Term(init.Rhs[i]); t0 != nil {
+								trips = trips.Sub(bnd.EnvAt(fsi, nil).LinOf(t0))
+							}
+						}
+					}
+				}
+			}
+			hi := env.IvLin(trips).Hi
 			if hi > 65535 {
-				o.Undecided("the bound `%s` is not known to fit 16 bits (upper bound %d)", f.Str(b), hi)
+				o.Undecided("the number of iterations up to `%s` is not known to fit 16 bits (upper bound %d)", f.Str(b), hi)
 				return true
 			}
-			o.OK("%s counts up to `%s` ≤ %d", iv.Name(), f.Str(b), hi)
+			o.OK("%s counts up to `%s`: at most %d iterations", iv.Name(), f.Str(b), hi)
 		}
 		return true
 	})
 	_ = n
+	c18Range(c, m, r)
 }
 
 func rootOf(info *types.Info, e ast.Expr) types.Object {
